@@ -2,6 +2,7 @@ package main
 
 import (
 	"bytes"
+	"context"
 	"encoding/json"
 	"fmt"
 	"strings"
@@ -9,6 +10,7 @@ import (
 	"github.com/99designs/gqlgen/graphql/handler/transport"
 
 	"verif/explore"
+	"verif/handschema"
 	"verif/rig"
 	"verif/vrt"
 )
@@ -39,6 +41,9 @@ func wsAlphabet() []wsOp {
 		{"echo-var", m("query", `query($s:String){echo(s:$s) ctxinfo}`, "variables", m("s", "S1"))},
 		{"echo-novar", m("query", `query($s:String){echo(s:$s) ctxinfo}`)},
 		{"unknown-field", m("query", `{nosuch}`)},
+		// subscriptions: one that reports a late error (transport.AddSubscriptionError), one that emits
+		{"sub-late-error", m("query", `subscription{s(n:1)}`)},
+		{"sub-emit", m("query", `subscription{s(n:2)}`)},
 	}
 }
 
@@ -53,6 +58,16 @@ type wsHistInst struct {
 // session runs ops over one connection of a fresh server and returns the frames per operation.
 func wsSession(ops []wsOp) [][]string {
 	s := newServer(nil)
+	s.hs.Sub = func(ctx context.Context, field string, args map[string]any, call int) handschema.SubStep {
+		n, _ := args["n"].(int64)
+		switch {
+		case n == 1:
+			return handschema.SubStep{Kind: "late-error"}
+		case call == 0:
+			return handschema.SubStep{Kind: "emit", Val: int(n)}
+		}
+		return handschema.SubStep{Kind: "end"}
+	}
 	s.srv.AddTransport(transport.Websocket{})
 	conn := rig.NewConn()
 	frames := make([][]string, len(ops))
